@@ -79,7 +79,9 @@ fn free_running(unit: &Value, out: &mut UnitResult) {
                     std::hint::spin_loop();
                 }
                 let req = Request::new(Bytes::new()).with_extension(peer);
-                futures::executor::block_on(svc.call(req)).map(|_| ()).map_err(|e| e.status())
+                // (a runtime of its own per thread: the middleware may use tokio facilities)
+                let rt = tokio::runtime::Builder::new_current_thread().enable_time().build().unwrap();
+                rt.block_on(svc.call(req)).map(|_| ()).map_err(|e| e.status())
             }));
         }
         let results: Vec<Result<(), StatusCode>> = hs.into_iter().map(|h| h.join().unwrap()).collect();
@@ -200,6 +202,10 @@ struct World {
     services: Vec<anemo_tower::inflight_limit::InflightLimit<Gated>>,
     reqs: Vec<Req>,
     peers: [PeerId; 2],
+    /// anemo runs inside tokio, so the middleware may use the runtime (spawn, timers): the
+    /// hand-driven futures are polled inside the context of a paused current-thread runtime, which
+    /// is given a few turns after every event so that tasks spawned by the subject make progress
+    rt: Arc<tokio::runtime::Runtime>,
 }
 
 impl World {
@@ -220,7 +226,16 @@ impl World {
                 vec![s.clone(), l2.layer(inner), s]
             }
         };
-        World { limit, block, shared, services, reqs: vec![], peers: [PeerId([1; 32]), PeerId([2; 32])] }
+        let rt = Arc::new(tokio::runtime::Builder::new_current_thread().enable_time().start_paused(true).build().unwrap());
+        World { limit, block, shared, services, reqs: vec![], peers: [PeerId([1; 32]), PeerId([2; 32])], rt }
+    }
+
+    fn turn(&self) {
+        self.rt.block_on(async {
+            for _ in 0..4 {
+                tokio::task::yield_now().await;
+            }
+        });
     }
 
     fn in_service(&self, k: usize) -> bool {
@@ -248,6 +263,15 @@ impl World {
 
     /// Apply one event; returns an oracle violation if the step itself shows one.
     fn step(&mut self, e: Ev) -> Result<(), (String, String)> {
+        let rt = self.rt.clone();
+        let _context = rt.enter();
+        let r = self.step_inner(e);
+        drop(_context);
+        self.turn();
+        r.and_then(|_| self.invariants())
+    }
+
+    fn step_inner(&mut self, e: Ev) -> Result<(), (String, String)> {
         match e {
             Ev::Arrive(p) => {
                 let k = self.reqs.len();
@@ -257,6 +281,9 @@ impl World {
                 let fut = self.services[k % n].call(req);
                 self.reqs.push(Req { peer: p, fut: Some(fut), flag: Arc::new(Flag(AtomicBool::new(false))), stage: Stage::Pending });
                 self.poll(k);
+                // (a middleware may hand the admitted request to the runtime: give it its turns
+                // before asking whether the request has entered the wrapped service)
+                self.turn();
                 let admitted = self.shared.lock().unwrap().entered.contains(&k);
                 // waiters that arrived earlier are served first (excess requests wait, in order)
                 let waiting_ahead = (0..k).filter(|j| self.reqs[*j].peer == p && self.reqs[*j].fut.is_some() && !self.shared.lock().unwrap().entered.contains(j)).count();
@@ -294,7 +321,7 @@ impl World {
                 self.shared.lock().unwrap().gates.remove(&(k as usize));
             }
         }
-        self.invariants()
+        Ok(())
     }
 
     fn invariants(&self) -> Result<(), (String, String)> {
@@ -373,6 +400,8 @@ impl World {
 
     /// Leaf check: finish everything, then `limit` fresh requests per peer must be admitted at once.
     fn drain_and_refill(&mut self) -> Result<(), (String, String)> {
+        let rt = self.rt.clone();
+        let _context = rt.enter();
         for k in 0..self.reqs.len() {
             let tx = self.shared.lock().unwrap().gates.remove(&k);
             if let Some(tx) = tx {
@@ -383,6 +412,7 @@ impl World {
             for k in 0..self.reqs.len() {
                 if self.reqs[k].fut.is_some() {
                     self.poll(k);
+                    self.turn();
                     let tx = self.shared.lock().unwrap().gates.remove(&k);
                     if let Some(tx) = tx {
                         let _ = tx.send(true);
